@@ -1,5 +1,6 @@
 import RoaringModel.Driver.Core
 import RoaringModel.Ops
+import RoaringModel.Mirror32
 /-! Driver handlers: family `Algebra` — binary set operations in every form (C02), relations and
     cardinality-only operations (C08).
 
@@ -63,13 +64,13 @@ def opsAlgebra : Handler := fun st toks =>
     pure (st.setB di res, out ++ " | p=" ++ cellTags ls.m rs.m res.m)
   | ["is_subset", l, r] => do
     let (_, x) ← b? l; let (_, y) ← b? r
-    pure (st, specMark (showBool (Bitmap.isSubset x.m y.m)) (showBool (Spec.isSubset x.s y.s)))
+    pure (st, specMark (showBool (Bitmap.isSubsetMirror x.m y.m)) (showBool (Spec.isSubset x.s y.s)))
   | ["is_superset", l, r] => do
     let (_, x) ← b? l; let (_, y) ← b? r
-    pure (st, specMark (showBool (Bitmap.isSuperset x.m y.m)) (showBool (Spec.isSuperset x.s y.s)))
+    pure (st, specMark (showBool (Bitmap.isSupersetMirror x.m y.m)) (showBool (Spec.isSuperset x.s y.s)))
   | ["is_disjoint", l, r] => do
     let (_, x) ← b? l; let (_, y) ← b? r
-    pure (st, specMark (showBool (Bitmap.isDisjoint x.m y.m)) (showBool (Spec.isDisjoint x.s y.s)))
+    pure (st, specMark (showBool (Bitmap.isDisjointMirror x.m y.m)) (showBool (Spec.isDisjoint x.s y.s)))
   | ["inter_len", l, r] => do
     let (_, x) ← b? l; let (_, y) ← b? r
     pure (st, specMark (toString (Bitmap.interLen x.m y.m)) (toString (Spec.interLen x.s y.s)))
